@@ -1,6 +1,6 @@
 """C18 — --update-all writes exactly the announced edits: announce/apply share one datum; one whole-file payload per path."""
 import re
-from ..query import deep_roots, ultimate_roots, describe_origin, field_path, TRANSPARENT, bool_arms, calls_in
+from ..query import deep_roots, ultimate_roots, describe_origin, field_path, TRANSPARENT, bool_arms, calls_in, path_avoiding
 
 EXPLANATION = (
     "Decided: R1 the JSON announcer and the applier take range and replacement from the same `Diff` value, which only "
@@ -104,11 +104,42 @@ def run(ctx):
         lt = [bi for bi in pd.live_blocks for s in pd.blocks[bi]["s"] if s[0] == "A" and s[2][0] == "bin" and s[2][1] == "Lt"]
         ok_overlap = bool(lt) and bool(pushes) and all(any(pd.dominates(b, p.bb) for b in lt) for p in pushes)
         ctx.ob("R1", "overlap test dominates acceptance", ok_overlap, "`diff.range.start < end` comparison dominates every push into `confirmed`", where=pd.loc())
-        ok_cnt = bool(cnt) and bool(pushes) and len(cnt) == len(pushes) and all(pd.dominates(p.bb, c.bb) or pd.dominates(c.bb, p.bb) for p in pushes for c in cnt) and all(not pd.in_loop(c.bb) or pd.in_loop(pushes[0].bb) for c in cnt)
-        # same arm: every path through the push also passes the counter and vice versa
-        same = all(set(pd.reachable_from(p.bb)) >= {c.bb} or set(pd.reachable_from(c.bb)) >= {p.bb} for p in pushes for c in cnt)
+        ok_cnt = bool(cnt) and bool(pushes) and len(cnt) == len(pushes) and all(pd.dominates(p.bb, c.bb) or pd.dominates(c.bb, p.bb) for p in pushes for c in cnt)
+        # control equivalence: whichever comes first, no path from it to the next iteration / the exit avoids the other one
+        heads = [c2.bb for c2 in pd.calls if c2.name == "next" and "Iterator" in (c2.callee.get("trait") or "")] + pd.return_blocks()
+        same = True
+        for p_ in pushes:
+            for c in cnt:
+                a, b = (p_.bb, c.bb) if pd.dominates(p_.bb, c.bb) else (c.bb, p_.bb)
+                if a != b and path_avoiding(pd, a, [b], heads):
+                    same = False
         ctx.ob("R1", "applied-changes counter incremented exactly where a diff is accepted", ok_cnt and same, "%d push(es) and %d counter increment(s) on the same acceptance arm" % (len(pushes), len(cnt)), where=pd.loc())
         # `end` updated from the accepted diff's range.end
+    # the accept loop drops a diff that starts before the end of the last accepted one: the list it receives must be in
+    # ascending order. Fix diffs are produced in document order by the scan; whatever is merged into them afterwards
+    # (unused-suppression edits) must be followed by a sort on every path.
+    ir = ctx.anchor("R1", r"^ast_grep_config::combined::ScanResultInner::<'t, D>::into_result$")
+    if ir:
+        def is_diffs(c):
+            return any(o.kind == "call" and o.ref.name == "collect" or (o.kind == "param" and "diffs" in field_path(o.proj)) for o in deep_roots(prog, ir, c.args[0], TRANSPARENT | {"deref_mut", "as_mut_slice"}))
+        merges = [c for c in ir.calls if c.name in ("extend", "push", "append", "insert") and "Vec" in c.best and is_diffs(c)]
+        diffs_merges = []
+        for c in merges:
+            # which vector: the one that ends up in ScanResult.diffs
+            aggs = [st for bi in ir.live_blocks for st in ir.blocks[bi]["s"] if st[0] == "A" and st[2][0] == "agg" and st[2][1].get("adt", "").endswith("::ScanResult")]
+            if not aggs:
+                continue
+            ops = dict(zip(aggs[0][2][1]["fields"], aggs[0][2][2]))
+            dv = {(o.kind, id(o.ref) if o.kind == "call" else o.ref) for o in deep_roots(prog, ir, ops["diffs"])}
+            cv = {(o.kind, id(o.ref) if o.kind == "call" else o.ref) for o in deep_roots(prog, ir, c.args[0], TRANSPARENT | {"deref_mut"})}
+            if dv & cv:
+                diffs_merges.append(c)
+        sorts = [c for c in ir.calls if c.name.startswith("sort")]
+        bad = [c for c in diffs_merges if path_avoiding(ir, c.bb, [s_.bb for s_ in sorts if ir.dominates(c.bb, s_.bb)], ir.return_blocks())]
+        ctx.ob("R1", "diffs stay ordered after merging suppression edits", not bad and (bool(diffs_merges) or True),
+               "%d merge(s) into the fix-diff vector, each followed by a sort on every path to the return" % len(diffs_merges) if not bad else
+               "edits are appended to the fix-diff vector (L%s) without re-sorting: the accept loop assumes ascending order and drops an edit that starts before the previously accepted one, although --json announces it" % [c.line for c in bad],
+               where=ir.loc())
     ra = ctx.anchor("R1", r"^ast_grep::print::interactive_print::InteractivePrinter::<P>::rewrite_action$")
     if ra:
         ie = [c for c in ra.calls if c.name == "is_empty"]
